@@ -169,6 +169,32 @@ func (ex *Executor) matchRow(st *State, fr *Frame, r *Row, evs []*Event) (*Term,
 	if len(evs) != len(r.Events) {
 		return nil, false, nil
 	}
+	// a map lookup reads and has no effect: where in the segment it happens is not part of the table (evaluating it
+	// inside a composite literal instead of into a local beforehand moves it behind the other field expressions)
+	isLookupE := func(e *Event) bool { return e.Kind == "call" && e.Fn == "maplookup" }
+	isLookupP := func(p *EvPat) bool { return p.Kind == "call" && p.Fn == "maplookup" }
+	{
+		var a, b []*Event
+		for _, e := range evs {
+			if isLookupE(e) {
+				a = append(a, e)
+			} else {
+				b = append(b, e)
+			}
+		}
+		if len(a) > 0 {
+			evs = append(a, b...)
+			var pa, pb []*EvPat
+			for _, p := range r.Events {
+				if isLookupP(p) {
+					pa = append(pa, p)
+				} else {
+					pb = append(pb, p)
+				}
+			}
+			r = &Row{Name: r.Name, Events: append(pa, pb...), When: r.When, Then: r.Then, Text: r.Text, Tags: r.Tags}
+		}
+	}
 	env := ex.envFor(st, fr)
 	if len(st.resultsForRows) > 0 {
 		env.bindResults(fr.fn, st.resultsForRows)
